@@ -254,6 +254,7 @@ pub async fn run(cx: &mut Ctx) {
                     nth,
                     class,
                     path,
+                    sticky: false,
                     kind: *rng.pick(&[
                         FaultKind::Eio,
                         FaultKind::Eio,
@@ -262,6 +263,19 @@ pub async fn run(cx: &mut Ctx) {
                         FaultKind::Short,
                     ]),
                 });
+            }
+            // disk full from some point of a writing statement on
+            if target.is_some() && calls1 > calls0 && cx.case.param("avoid", 1) == 1 {
+                for _ in 0..2 {
+                    io_plan.push(IoFaultSpec {
+                        step: ti,
+                        nth: rng.below(calls1 - calls0),
+                        class: Class::Write,
+                        path: String::new(),
+                        sticky: true,
+                        kind: FaultKind::Enospc,
+                    });
+                }
             }
         }
 
@@ -298,7 +312,10 @@ pub async fn run(cx: &mut Ctx) {
             } else {
                 let f = iof.as_ref().unwrap();
                 benign_io = matches!(f.kind, FaultKind::Eintr | FaultKind::Short);
-                if f.class == Class::Read {
+                if f.sticky {
+                    label = format!("disk full from syscall #{} of the statement on", f.nth);
+                    interpose::set_disk_full_from(Some(interpose::call_count() + f.nth));
+                } else if f.class == Class::Read {
                     // cold copy of B: its block cache is empty, so the reads really happen
                     label = format!("{:?} on the {}-th read of the statement (cold copy)", f.kind, f.nth);
                     let _ = std::fs::remove_dir_all(&root_c);
